@@ -400,6 +400,72 @@ func writeInFlight(id string, seed uint64) runner.Result {
 	return runner.Violation(id, "probe-failed:"+verdict, "connection not closed but the probe failed with "+verdict+"\n"+hist)
 }
 
+// firstCalls: the newly issued RPC itself begins in an unusual but legal way: its first send fails
+// locally (the encoder rejects the message: nothing is written), and then it receives from a handler
+// that speaks first. The RPC must still reach its handler and complete, and the probe after it too.
+var firstCallShapes = []struct{ name, client, handler string }{
+	{"failed-send-then-recv", "mrhR", "sR"},
+	{"failed-sends-then-recv-send", "mmrshR", "srR"},
+	{"recv-first-control", "rhR", "sR"},
+	{"failed-send-then-halfclose", "mhR", "Rs"},
+	{"send-failed-send-recv", "smrhR", "rsR"},
+}
+
+func firstCalls(id string, seed uint64, shape int) runner.Result {
+	r := &payload.SplitMix{S: seed}
+	cfg := prog.GenConfig(r, false)
+	if r.Intn(2) == 0 {
+		cfg.Client.SoftCancel, cfg.Server.SoftCancel = true, true
+	}
+	if cfg.Net.Cap == 0 {
+		cfg.Net.Cap = -1
+	}
+	sh := firstCallShapes[shape]
+	acts := func(t string) (out []prog.Act) {
+		for _, c := range []byte(t) {
+			out = append(out, prog.Act{Op: c, Size: 5 + r.Intn(40)})
+		}
+		return out
+	}
+	var scripts []*prog.Script
+	for i := 0; i < r.Intn(2); i++ {
+		scripts = append(scripts, prog.GenClean(r, uint64(i+1), cfg))
+	}
+	s := &prog.Script{Tag: uint64(len(scripts) + 1), Client: acts(sh.client), Handler: acts(sh.handler)}
+	scripts = append(scripts, s)
+	x := prog.New(cfg, scripts)
+	defer x.Rig.Teardown()
+	x.Start([][]*prog.Script{scripts})
+	hist := cfg.Desc + " | first-calls " + sh.name + ": " + describe(s)
+	st := x.WaitClients()
+	if st == "watchdog" {
+		return runner.Inconcl(id, "watchdog: "+hist)
+	}
+	_, snap := census.Quiesce(rig.Watchdog)
+	l := x.Log(s.Tag)
+	closed := rig.IsClosed(x.Rig.Conn.Closed())
+	key := "first-calls:" + sh.name
+	if st != "ready" {
+		return runner.Violation(id, key+":rpc-never-completes", "the newly issued RPC did not complete although nothing but its own failed local send preceded the receive (connection closed="+fmt.Sprint(closed)+")\nprogram: "+hist+"\nblocked goroutines in drpc:\n"+census.Dump(census.InDRPC(snap)))
+	}
+	if !closed && !l.HandlerRan {
+		return runner.Violation(id, key+":handler-never-ran", "the client's calls returned but the RPC never reached its handler\nprogram: "+hist)
+	}
+	verdict, _ := x.Probe(1000)
+	res := runner.Hold(id, hist, true)
+	res.Events = int64(len(scripts) + 1)
+	res.Stats = map[string]int64{"probe_" + strings.SplitN(verdict, ":", 2)[0]: 1}
+	res.Sample = map[string]interface{}{"program": hist, "probe": verdict}
+	switch {
+	case verdict == "ok", rig.IsClosed(x.Rig.Conn.Closed()):
+		return res
+	case verdict == "watchdog":
+		return runner.Inconcl(id, "watchdog during probe: "+hist)
+	}
+	_, snap = census.Quiesce(rig.Watchdog)
+	return runner.Violation(id, key+":probe-"+strings.SplitN(verdict, ":", 2)[0], "after the RPC the connection is not closed but the probe RPC ended with "+verdict+"\nprogram: "+hist+"\n"+census.Dump(census.InDRPC(snap)))
+}
+
 func gen(tier string, seed uint64) []runner.Scenario {
 	n := 600
 	if tier == "thorough" {
@@ -414,6 +480,11 @@ func gen(tier string, seed uint64) []runner.Scenario {
 			id3 := fmt.Sprintf("write-in-flight/%d", i)
 			out = append(out, runner.Scenario{ID: id3, Run: func() runner.Result { return writeInFlight(id3, payload.Hash(seed, 0xC062, uint64(i))) }})
 		}
+		if i%12 == 0 {
+			shape := (i / 12) % len(firstCallShapes)
+			id4 := fmt.Sprintf("first-calls/%s/%d", firstCallShapes[shape].name, i)
+			out = append(out, runner.Scenario{ID: id4, Run: func() runner.Result { return firstCalls(id4, payload.Hash(seed, 0xC063, uint64(i)), shape) }})
+		}
 		if i%6 == 0 {
 			id2 := fmt.Sprintf("queued-cancel/%d", i)
 			out = append(out, runner.Scenario{ID: id2, Run: func() runner.Result { return queuedCancel(id2, payload.Hash(seed, 0xC061, uint64(i))) }})
@@ -426,7 +497,7 @@ func main() {
 	runner.Main(runner.Check{
 		Property: "C06",
 		Level:    "exploration",
-		Rule:     "one case = one program: 1-2 RPCs drawn from clean shapes and five early-ending kinds (client cancel / close at a seeded position, client close after half-close without draining, handler error / early return at a seeded position) x configuration cell (split, writer buffer, cancel mode, transport capacity, chunkers) x optional soft cancel landing while the client goroutine is parked at one of 12 internal points (incl. inside the decode of a received message) (before the semaphore, after stream creation, between metadata/invoke/message writes, ...), optionally one message that the peer's decoder rejects; followed by a tagged unary probe. A second family cancels an RPC that is queued behind a soft-cancelled stream whose cancel packet is parked in the transport. Non-trivial: every case whose workload ended on both sides. Distinct: by configuration and program text.",
+		Rule:     "one case = one program: 1-2 RPCs drawn from clean shapes and five early-ending kinds (client cancel / close at a seeded position, client close after half-close without draining, handler error / early return at a seeded position) x configuration cell (split, writer buffer, cancel mode, transport capacity, chunkers) x optional soft cancel landing while the client goroutine is parked at one of 12 internal points (incl. inside the decode of a received message) (before the semaphore, after stream creation, between metadata/invoke/message writes, ...), optionally one message that the peer's decoder rejects; followed by a tagged unary probe. A first-calls family makes the newly issued RPC itself begin unusually (its first send is rejected by its own encoder, then it receives from a handler that speaks first). A second family cancels an RPC that is queued behind a soft-cancelled stream whose cancel packet is parked in the transport. Non-trivial: every case whose workload ended on both sides. Distinct: by configuration and program text.",
 		Assumptions: []string{
 			"programs that deadlock by construction (both sides waiting to receive) are rejected by an abstract simulation before they run",
 			"if the workload itself never ends (client call or handler still blocked at quiescence) the case is inconclusive for C06",
